@@ -265,7 +265,7 @@ Proof.
   clear Hd.
   destruct ds' as [|d r].
   { exfalso. cbn [map] in Ht. rewrite app_nil_r in Ht. rewrite Ht in Hin. apply repeat_spec in Hin. congruence. }
-  inversion Hf as [|? ? Hd58 Hr58]; subst d0 l.
+  pose proof (Forall_inv Hf) as Hd58.
   assert (Hl : last (rev (d :: r)) 1 <> 0) by (cbn [rev]; rewrite last_last; exact Hhd).
   assert (Hfr : Forall (fun d => d < 58) (rev (d :: r))) by (apply Forall_rev; exact Hf).
   assert (Hv : 0 < val_msb 58 (d :: r)).
@@ -303,11 +303,13 @@ Proof.
     exfalso. pose proof (b58_decode_encode _ _ H1 N1) as E1.
     rewrite A2 in H2. rewrite b58_decode_allones in H2 by (destruct t2; [congruence | simpl; lia]).
     injection H2 as <-. destruct (b58_allzero (S (length t2)) ltac:(lia)) as [E _].
-    rewrite E in E1. injection E1 as <-. destruct N1 as [c [Hin Hc]]. apply repeat_spec in Hin. congruence.
+    change (x00 :: repeat x00 (length t2)) with (repeat x00 (S (length t2))) in E1.
+    rewrite E in E1. injection E1 as <-. destruct N1 as [c [Hin Hc]]. apply (repeat_spec (S (length t2))) in Hin. congruence.
   - exfalso. pose proof (b58_decode_encode _ _ H2 N2) as E2.
     rewrite A1 in H1. rewrite b58_decode_allones in H1 by (destruct t1; [congruence | simpl; lia]).
     injection H1 as <-. destruct (b58_allzero (S (length t1)) ltac:(lia)) as [E _].
-    rewrite E in E2. injection E2 as <-. destruct N2 as [c [Hin Hc]]. apply repeat_spec in Hin. congruence.
+    change (x00 :: repeat x00 (length t1)) with (repeat x00 (S (length t1))) in E2.
+    rewrite E in E2. injection E2 as <-. destruct N2 as [c [Hin Hc]]. apply (repeat_spec (S (length t1))) in Hin. congruence.
   - rewrite A1 in H1. rewrite A2 in H2.
     rewrite b58_decode_allones in H1 by (destruct t1; [congruence | simpl; lia]).
     rewrite b58_decode_allones in H2 by (destruct t2; [congruence | simpl; lia]).
